@@ -14,6 +14,18 @@
   TRACE   (code -> spec) seeded random scenarios beyond TLC's bounds (up to 6 sub-files, a nested sub-file,
           several simultaneous faults, all formats) are recorded the same way.
   Every observation is validated by TLC against Trace_Save (Ref clauses: verdict; Alg clauses: drift).
+
+  Round 4 (extension; everything below is decided by TLC in the same way):
+  * scenario fields skipval (save(skip_validation=True)), edited (a component changed after loading), sub-file kind "orig"
+    (ActionJsonnet: __path__ + __orig__) and an ActionJsonSchema sub-file, scheme = how the target is spelled: plain path /
+    file:///abs (a local file: local branch, overwrite check) / local://abs (fsspec branch of save(), _core.py:892-904, modelled
+    step by step: probe-open, multifile refusal, open, validate, serialise, write) / memory://... (fsspec's in-memory file system);
+    MC_Save gets the sub-universes InitSkipval / InitOrig / InitFsspec / InitFileUrl / InitMemory (CONSTANT Ext).
+  * HISTORIES (spec/SaveHist.tla, MC_SaveHist, Trace_SaveHist): the same configuration object is saved, edited (every value
+    changes, some __path__ metas are dropped) and saved again into the same directory; TLC checks the laws of a history
+    (NeverLost, FirstResultKept, StaleNotMistaken, FailedFirstIsInvisible, RetrySucceeds) on every history of a bounded
+    universe and emits them; the harness replays them (both calls are also ordinary observations for Trace_Save) and
+    Trace_SaveHist validates the recorded pairs.
 """
 from __future__ import annotations
 
@@ -35,7 +47,7 @@ common.check_repo_import()
 import yaml  # noqa: E402
 from typing import Any, Dict  # noqa: E402
 
-from jsonargparse import ActionConfigFile, ActionParser, ArgumentParser, Namespace  # noqa: E402
+from jsonargparse import ActionConfigFile, ActionJsonnet, ActionJsonSchema, ActionParser, ArgumentParser, Namespace  # noqa: E402
 from jsonargparse.typing import Path_fr  # noqa: E402
 import jsonargparse._util as _jutil  # noqa: E402
 
@@ -46,7 +58,12 @@ VARIANT = os.environ.get("VERIF_C18_VARIANT", "dumpfirst")  # /repo carries the 
 SFX = "" if VARIANT == "code" else "_" + VARIANT
 NPROC = min(16, os.cpu_count() or 4)
 S_KEYS = ["s1", "s2", "s3", "s4"]
-MARK = {"s1": 11, "s2": 22, "s3": 33, "s4": 44, "s1.t": 7}
+MARK = {"s1": 11, "s2": 22, "s3": 33, "s4": 44, "s1.t": 7, "jn": 55, "js": 66}
+X_KEYS = S_KEYS + ["jn", "js"]          # components whose document is {"x": MARK[key]}
+EDIT = 1000                             # an edited component holds MARK[key] + EDIT
+JN_TEXT = '// jsonnet source, kept verbatim by save()\n{"x": 50 + 5}\n'
+X_SCHEMA = {"type": "object", "properties": {"x": {"type": "integer"}}}
+SC_DEFAULTS = {"inplace": False, "skipval": False, "edited": "none", "scheme": "path"}
 P_CONTENT = "content of the file behind a path value\n"
 REAL = {"f1": "alpha.yaml", "f2": "beta.yaml", "f3": "gamma.json", "f4": "delta.yaml", "f5": "eps.json", "f6": "zeta.yaml", "f7": "eta.yaml"}
 FMT_EXT = {"yaml": ".yaml", "json": ".json", "json_indented": ".json", "parser_mode": ".yaml"}
@@ -58,13 +75,16 @@ class Unserialisable:
 
 
 # ---------------------------------------------------------------- gamma: scenario -> real parser, files, call
-def make_parser(nested: bool = False) -> ArgumentParser:
+def make_parser(nested: bool = False, xkeys: bool = True) -> ArgumentParser:
     p = ArgumentParser(exit_on_error=False)
     p.add_argument("--cfg", action=ActionConfigFile)
     p.add_argument("--n", type=int, default=0)
     p.add_argument("--a", type=Any, default=None)
     p.add_argument("--d", type=Dict[str, Any], default={}, enable_path=True)
     p.add_argument("--p", type=Path_fr, default=None)
+    if xkeys:   # (only when the scenario uses them: building the schema validators costs as much as the rest of the parser)
+        p.add_argument("--jn", action=ActionJsonnet(schema=X_SCHEMA))        # a sub-file of this one carries __path__ AND __orig__
+        p.add_argument("--js", action=ActionJsonSchema(schema=X_SCHEMA))
     for k in S_KEYS:
         sp = ArgumentParser(exit_on_error=False)
         sp.add_argument("--x", type=int, default=0)
@@ -169,20 +189,39 @@ class _SpiedFile:
             pass
 
 
-def classify(path: str, old: bytes | None) -> str:
-    """content class of one file of the output directory (alpha)"""
+def classify(path: str, old: bytes | None, edited: str = "none", bump: int = 0) -> str:
+    """content class of one file of the output directory (alpha).  `edited` = the component whose value was changed after
+    loading: a file holding its value from BEFORE the edit is class '<key>~' (Stale(key) in Save.tla)"""
     if not os.path.lexists(path):
         return "absent"
     if os.path.isdir(path):
         return "dir"
     with _real_open(path, "rb") as f:
         b = f.read()
+    return classify_bytes(b, old, edited, bump)
+
+
+def classify_mem(mpath: str, old: bytes | None, edited: str = "none", bump: int = 0) -> str:
+    """the same for an object of fsspec's in-memory file system"""
+    import fsspec
+
+    memfs = fsspec.filesystem("memory")
+    if not memfs.exists(mpath):
+        return "absent"
+    if memfs.isdir(mpath):
+        return "dir"
+    return classify_bytes(memfs.cat(mpath), old, edited, bump)
+
+
+def classify_bytes(b: bytes, old: bytes | None, edited: str = "none", bump: int = 0) -> str:
     if len(b) == 0:
         return "empty"
     if old is not None and b == old:
         return "old"
     if b.decode("utf-8", "replace") == P_CONTENT:
         return "p"
+    if b.decode("utf-8", "replace") == JN_TEXT:
+        return "jn~" if edited == "jn" else "jn"
     try:
         doc = yaml.safe_load(b.decode("utf-8"))
     except Exception:
@@ -194,8 +233,10 @@ def classify(path: str, old: bytes | None) -> str:
             return "d"
         if "y" in doc:
             return "s1.t"
-        for k in S_KEYS:
-            if doc.get("x") == MARK[k]:
+        for k in X_KEYS:
+            if doc.get("x") == MARK[k] + bump:
+                return k + "~" if edited == k else k
+            if doc.get("x") == "bad-" + k or (edited == k and doc.get("x") == MARK[k] + EDIT):
                 return k
     return "other"
 
@@ -235,8 +276,12 @@ def run_case(task) -> dict:
     target = os.path.join(out_dir, "nodir", main_real) if fault[0] == "noparent" else os.path.join(out_dir, main_real)
     loc = {f: os.path.join(out_dir, real[f]) for f in names}
     loc["main"] = target
-    inplace = bool(sc.get("inplace"))
-    obs = {"sc": {**{k: sc[k] for k in ("multifile", "overwrite", "subs", "invalid", "unser", "fault", "pre")}, "inplace": inplace}, "src": src, "idx": idx}
+    mem = sc.get("scheme") == "memory"        # the main file is an object of fsspec's in-memory file system (per process: forked worker)
+    mpath = f"/verif-c18-{idx}/{main_real}"
+    sc = {**SC_DEFAULTS, **sc}
+    inplace = bool(sc["inplace"])
+    edited = sc["edited"]
+    obs = {"sc": {k: sc[k] for k in ("multifile", "overwrite", "subs", "invalid", "unser", "fault", "pre", "inplace", "skipval", "edited", "scheme")}, "src": src, "idx": idx}
     home = os.getcwd()
     try:
         # ---- input files.  Where the file of a component lives and how the document that mentions it spells the
@@ -270,6 +315,8 @@ def run_case(task) -> dict:
             with _real_open(path, "w") as f:
                 if kind == "content":
                     f.write(P_CONTENT)
+                elif kind == "orig":
+                    f.write(JN_TEXT)
                 elif real[n].endswith(".json") or rnd.random() < 0.3:
                     f.write(json.dumps(comp_doc(k, sc, refs)))
                 else:
@@ -278,14 +325,26 @@ def run_case(task) -> dict:
         for k in S_KEYS[: (4 if sc.get("wide") else 2)]:
             doc[k] = refs[k] if k in subs else comp_doc(k, sc, refs)
         doc["d"] = refs["d"] if "d" in subs else comp_doc("d", sc, refs)
-        if "p" in subs:
-            doc["p"] = refs["p"]
+        for k in ("p", "jn", "js"):
+            if k in subs:
+                doc[k] = refs[k]
         main_in = target if inplace else os.path.join(in_dir, "input.yaml")
         with _real_open(main_in, "w") as f:
             f.write(yaml.safe_dump(doc))
         # ---- the directory before the call
         old = {}
         for f, c in sc["pre"]:
+            if mem and f == "main":
+                import fsspec
+
+                if c == "old":
+                    old[f] = (f"# the user's only copy {rnd.getrandbits(64):x}\nprecious: [{rnd.randint(0, 999)}, data]\n" * rnd.randint(1, 3)).encode()
+                    fsspec.filesystem("memory").pipe(mpath, old[f])
+                elif c == "empty":
+                    fsspec.filesystem("memory").pipe(mpath, b"")
+                elif c != "absent":
+                    raise ValueError("memory target: pre-existing " + c)
+                continue
             if c == "old":
                 old[f] = (f"# the user's only copy {rnd.getrandbits(64):x}\nprecious: [{rnd.randint(0, 999)}, data]\n" * rnd.randint(1, 3)).encode()
                 with _real_open(loc[f], "wb") as fh:
@@ -295,97 +354,173 @@ def run_case(task) -> dict:
             elif c == "dir":
                 os.makedirs(loc[f])
         os.chdir(cwd_dir)
-        parser = make_parser(nested=bool(sc.get("nested")))
+        xkeys = any(k in ("jn", "js") for k in subs)
+        parser = make_parser(nested=bool(sc.get("nested")), xkeys=xkeys)
         if rnd.random() < 0.5:
             cfg = parser.parse_path(main_in, with_meta=True)
         else:
             cfg = parser.parse_args(["--cfg", os.path.relpath(main_in, cwd_dir)], with_meta=True)
-        if sc["invalid"] == "main":
-            cfg["n"] = "not-an-int"
-        elif sc["invalid"] != "none":
-            cfg[sc["invalid"] + (".y" if sc["invalid"] == "s1.t" else ".x")] = "not-an-int"
-        if sc["unser"] == "main":
-            cfg["a"] = Unserialisable()
-        elif sc["unser"] == "d":
-            cfg["d"]["u"] = Unserialisable()
-        elif sc["unser"] != "none":
-            cfg[sc["unser"] + ".a"] = Unserialisable()
-        expected = plain(cfg)
-        expected.pop("cfg", None)
+        # a valid edit after loading: the configuration that has to be reproduced is the edited one (made before the invalid
+        # value is planted, so that a component that is both edited and invalid IS invalid)
+        if edited == "main":
+            cfg["n"] = 6
+        elif edited in ("jn", "js"):
+            cfg[edited]["x"] = MARK[edited] + EDIT
+        elif edited in S_KEYS:
+            cfg[edited + ".x"] = MARK[edited] + EDIT
+        elif edited != "none":
+            raise ValueError(f"edited={edited!r} is not supported by the harness")
+        def one_call(sc, obs, old, bump, final):
+            """plant the call's invalid / unserialisable value, call save() under the spy, observe (fills obs).  `bump` = the
+            generation of the values (a second call of a history saves changed values), `final` = the input directories may
+            be moved away for the re-parse"""
+            fault = tuple(sc["fault"])
+            edited = sc["edited"]
+            if sc["invalid"] == "main":
+                cfg["n"] = "not-an-int"
+            elif sc["invalid"] in ("jn", "js"):
+                cfg[sc["invalid"]]["x"] = "bad-" + sc["invalid"]
+            elif sc["invalid"] != "none":
+                cfg[sc["invalid"] + (".y" if sc["invalid"] == "s1.t" else ".x")] = "bad-" + sc["invalid"]
+            if sc["unser"] == "main":
+                cfg["a"] = Unserialisable()
+            elif sc["unser"] == "d":
+                cfg["d"]["u"] = Unserialisable()
+            elif sc["unser"] != "none":
+                cfg[sc["unser"] + ".a"] = Unserialisable()
+            expected = plain(cfg)
+            expected.pop("cfg", None)
 
-        def snap():
-            return [[f, classify(loc[f], old.get(f))] for f in names]
+            def snap():
+                return [[f, classify_mem(mpath, old.get(f), edited, bump) if (mem and f == "main") else classify(loc[f], old.get(f), edited, bump)] for f in names]
 
-        skip = set(loc.values())
-        before = tree(root, skip)
-        obs["pre0"] = snap()
-        spy = OpenSpy(root, fault, snap)
-        how = {"format": "no-such-format" if fault[0] == "format" else fmt, "overwrite": sc["overwrite"], "multifile": sc["multifile"]}
-        # the target as a relative string, an absolute string, an os.PathLike, or a Path object made for another directory
-        r = rnd.random()
-        saved_home = os.environ.get("HOME")
-        if r < 0.3:
-            tgt = os.path.relpath(target, cwd_dir)
-        elif r < 0.5:
-            tgt = target
-        elif r < 0.62:
-            tgt = pathlib.Path(target)
-        elif r < 0.78 and not (os.path.isdir(target) or fault[0] == "noparent"):
-            # a spelling that only Path resolves: '~/name' with HOME pointing at the target directory
-            os.environ["HOME"] = os.path.dirname(target)
-            tgt = "~/" + os.path.basename(target)
-        elif os.path.isdir(target) or fault[0] == "noparent":
-            tgt = target
-        else:
-            tgt = _jutil.Path(os.path.basename(target), mode="fc", cwd=os.path.dirname(target))
-        builtins.open = spy
-        try:
-            try:
-                parser.save(cfg, tgt, **how)
-                obs["out"], obs["exc"] = "ok", ""
-            except BaseException as ex:  # noqa: B036 -- SystemExit included on purpose
-                obs["out"], obs["exc"] = "raise", type(ex).__name__
-                obs["exc_tb"] = _where(ex)
-        finally:
-            builtins.open = _real_open
-            if saved_home is None:
-                os.environ.pop("HOME", None)
+            skip = set(loc.values())
+            before = tree(root, skip)
+            obs["pre0"] = snap()
+            spy = OpenSpy(root, fault, snap)
+            how = {"format": "no-such-format" if fault[0] == "format" else fmt, "overwrite": sc["overwrite"], "multifile": sc["multifile"]}
+            if sc["skipval"]:
+                how["skip_validation"] = True
+            # the target as a relative string, an absolute string, an os.PathLike, or a Path object made for another directory
+            r = rnd.random()
+            saved_home = os.environ.get("HOME")
+            if sc["scheme"] == "fsspec":
+                # a target spelled with a protocol fsspec knows (LocalFileSystem): the files are still those of the scratch directory
+                tgt = "local://" + target
+            elif mem:
+                tgt = "memory:/" + mpath
+            elif sc["scheme"] == "fileurl":
+                # a URL spelling of a LOCAL file: Path strips the scheme (_util.py:513,550), everything else is as for a plain path
+                tgt = "file://" + target
+            elif r < 0.3:
+                tgt = os.path.relpath(target, cwd_dir)
+            elif r < 0.5:
+                tgt = target
+            elif r < 0.62:
+                tgt = pathlib.Path(target)
+            elif r < 0.78 and not (os.path.isdir(target) or fault[0] == "noparent"):
+                # a spelling that only Path resolves: '~/name' with HOME pointing at the target directory
+                os.environ["HOME"] = os.path.dirname(target)
+                tgt = "~/" + os.path.basename(target)
+            elif os.path.isdir(target) or fault[0] == "noparent":
+                tgt = target
             else:
-                os.environ["HOME"] = saved_home
-        obs["fired"] = spy.fired
-        inv = {v: k for k, v in loc.items()}
-        obs["events"] = [[e, inv.get(p, "?" + os.path.relpath(p, root)), s] for e, p, s in spy.events]
-        obs["fs"] = snap()
-        after = tree(root, skip)
-        obs["extra"] = [[n, "absent" if n not in before else "old", "absent" if n not in after else "other"]
-                        for n in sorted(set(before) | set(after)) if before.get(n) != after.get(n)]
-        obs["cwd_same"] = os.getcwd() == cwd_dir
-        obs["reparses"] = False
-        obs["refs"] = []
-        obs["layout"] = style
-        if obs["out"] == "ok":
-            # what the saved documents say where each component is to be found (read from the saved files themselves)
-            obs["refs"] = _saved_refs(sc, loc, real, names)
-            # the saved path must stand on its own: the directories the config was loaded from are moved away and the
-            # process sits somewhere else before the saved path is parsed again
-            if not inplace:
-                for d in sorted(os.listdir(root)):
-                    if d == "in" or d.startswith("src_"):
-                        os.rename(os.path.join(root, d), os.path.join(root, "gone_" + d))
-            elsewhere = os.path.join(root, "elsewhere")
-            os.makedirs(elsewhere, exist_ok=True)
-            os.chdir(elsewhere)
+                tgt = _jutil.Path(os.path.basename(target), mode="fc", cwd=os.path.dirname(target))
+            builtins.open = spy
             try:
-                again = make_parser(nested=bool(sc.get("nested"))).parse_path(target, with_meta=False)
-                got = plain(again)
-                got.pop("cfg", None)
-                obs["reparses"] = got == expected
-                if not obs["reparses"]:
-                    obs["reparse_diff"] = _diff(expected, got)
-            except BaseException as ex:  # noqa: B036
-                obs["reparse_diff"] = f"{type(ex).__name__}: {str(ex)[:200]}"
-        obs["python"] = (f"parser.save(cfg, {tgt if isinstance(tgt, str) else repr(tgt)!r}, format={how['format']!r}, overwrite={how['overwrite']}, multifile={how['multifile']})"
-                         f"  # cfg parsed from input.yaml referring to {sorted(refs.values())}, invalid={sc['invalid']}, unserialisable={sc['unser']}, fault={list(fault)}")
+                try:
+                    parser.save(cfg, tgt, **how)
+                    obs["out"], obs["exc"] = "ok", ""
+                except BaseException as ex:  # noqa: B036 -- SystemExit included on purpose
+                    obs["out"], obs["exc"] = "raise", type(ex).__name__
+                    obs["exc_tb"] = _where(ex)
+            finally:
+                builtins.open = _real_open
+                if saved_home is None:
+                    os.environ.pop("HOME", None)
+                else:
+                    os.environ["HOME"] = saved_home
+            obs["fired"] = spy.fired
+            inv = {v: k for k, v in loc.items()}
+            obs["events"] = [[e, inv.get(p, "?" + os.path.relpath(p, root)), s] for e, p, s in spy.events]
+            obs["fs"] = snap()
+            after = tree(root, skip)
+            obs["extra"] = [[n, "absent" if n not in before else "old", "absent" if n not in after else "other"]
+                            for n in sorted(set(before) | set(after)) if before.get(n) != after.get(n)]
+            obs["cwd_same"] = os.getcwd() == cwd_dir
+            obs["reparses"] = False
+            obs["refs"] = []
+            obs["layout"] = style
+            if obs["out"] == "ok":
+                # what the saved documents say where each component is to be found (read from the saved files themselves)
+                obs["refs"] = _saved_refs(sc, loc, real, names)
+                # the saved path must stand on its own: the directories the config was loaded from are moved away and the
+                # process sits somewhere else before the saved path is parsed again
+                if not inplace and final:
+                    for d in sorted(os.listdir(root)):
+                        if d == "in" or d.startswith("src_"):
+                            os.rename(os.path.join(root, d), os.path.join(root, "gone_" + d))
+                elsewhere = os.path.join(root, "elsewhere")
+                os.makedirs(elsewhere, exist_ok=True)
+                os.chdir(elsewhere)
+                try:
+                    if mem:
+                        from jsonargparse import set_config_read_mode
+
+                        set_config_read_mode(fsspec_enabled=True)
+                    again = make_parser(nested=bool(sc.get("nested")), xkeys=xkeys).parse_path(tgt if mem else target, with_meta=False)
+                    got = plain(again)
+                    got.pop("cfg", None)
+                    obs["reparses"] = got == expected
+                    if not obs["reparses"]:
+                        obs["reparse_diff"] = _diff(expected, got)
+                except BaseException as ex:  # noqa: B036
+                    obs["reparse_diff"] = f"{type(ex).__name__}: {str(ex)[:200]}"
+                if not final:
+                    os.chdir(cwd_dir)
+            obs["python"] = (f"parser.save(cfg, {tgt if isinstance(tgt, str) else repr(tgt)!r}, format={how['format']!r}, overwrite={how['overwrite']}, multifile={how['multifile']}"
+                             f"{', skip_validation=True' if sc['skipval'] else ''})"
+                             f"  # cfg parsed from input.yaml referring to {sorted(refs.values())}, invalid={sc['invalid']}, unserialisable={sc['unser']}, edited after loading={edited}, fault={list(fault)}")
+        one_call(sc, obs, old, 0, "then" not in sc)
+        if "then" in sc:
+            # ---- a history (SaveHist.tla): the SAME configuration object is edited -- every value changes (a new generation),
+            # what was planted for the first call is taken out, some __path__ metas are dropped -- and saved again into the
+            # same directory.  What the first call wrote is, for the second call, bytes that are already there ("old").
+            sc2 = {**SC_DEFAULTS, **sc["then"], "scheme": sc["scheme"]}
+            bump = 100
+            try:
+                metas = {k: ("__path__" in cfg[k]) for k in subs}
+                if not all(metas.values()):
+                    raise TypeError(f"save() took the __path__ meta out of the caller's configuration: {metas}")
+                cfg["n"], cfg["a"] = 7, None
+                for k in S_KEYS[: (4 if sc.get("wide") else 2)]:
+                    cfg[k + ".x"], cfg[k + ".a"] = MARK[k] + bump, None
+                cfg["d"]["k"] = 4
+                cfg["d"].pop("u", None)
+                keep2 = {k for k, _, _ in sc2["subs"]}
+                for k in subs:
+                    if k not in keep2:
+                        if isinstance(cfg[k], dict):
+                            cfg[k].pop("__path__", None)
+                        else:
+                            cfg.pop(k + ".__path__", None)
+            except Exception as ex:
+                # the first save() changed the CALLER's configuration object so that it cannot be edited as planned: that is
+                # C08's subject, not C18's -- the history stops here (reported as drift, never as a verdict)
+                obs["then_skipped"] = f"{type(ex).__name__}: {str(ex)[:200]}"
+                return obs
+            old2 = {}
+            for f in names:
+                if os.path.isfile(loc[f]) and os.path.getsize(loc[f]) > 0:
+                    with _real_open(loc[f], "rb") as fh:
+                        old2[f] = fh.read()
+            obs2 = {"src": "hist2", "idx": -1}
+            pre2 = [[f, classify(loc[f], old2.get(f), "none", bump)] for f in names]
+            obs2["sc"] = {**{k: sc2[k] for k in ("multifile", "overwrite", "subs", "invalid", "unser", "fault", "inplace", "skipval", "edited", "scheme")}, "pre": pre2}
+            obs2["model_pre"] = sc2["pre"]
+            one_call(sc2, obs2, old2, bump, True)
+            obs["then"] = obs2
+
     except BaseException as ex:  # noqa: B036 -- the set-up itself failed: machinery, not a verdict
         import traceback
 
@@ -394,6 +529,15 @@ def run_case(task) -> dict:
         builtins.open = _real_open
         os.chdir(home)
         shutil.rmtree(root, ignore_errors=True)
+        if mem:
+            try:
+                from jsonargparse import set_config_read_mode
+                import fsspec
+
+                set_config_read_mode(fsspec_enabled=False)
+                fsspec.filesystem("memory").rm(os.path.dirname(mpath), recursive=True)
+            except Exception:
+                pass
     return obs
 
 
@@ -442,12 +586,14 @@ def _diff(a, b, path="") -> str:
 
 
 # ---------------------------------------------------------------- random scenarios beyond the bounds of MC_Save
-def random_scenario(rnd: random.Random) -> dict:
+def random_scenario(rnd: random.Random, rnd4: random.Random, p_x: float = 0.25) -> dict:
+    """rnd4 draws everything that round 4 added (so that the stream of the earlier rounds is not shifted)"""
     multifile = rnd.random() < 0.7
     nested = rnd.random() < 0.3
     inplace = rnd.random() < 0.15
     keys = [k for k in S_KEYS if rnd.random() < 0.6]
     leafs = [k for k in ("d", "p") if rnd.random() < 0.4 and (k != "p" or multifile)]
+    leafs += [k for k in ("jn", "js") if rnd4.random() < p_x and not inplace]      # round 4: ActionJsonnet (__orig__) / ActionJsonSchema sub-files
     files = ["main"] + sorted(rnd.sample(list(REAL), len(REAL) if inplace else rnd.randint(2, 6)))
     pool = [f for f in files if f != "main"]
     subs = []
@@ -465,14 +611,14 @@ def random_scenario(rnd: random.Random) -> dict:
     if nested and "s1" in keys and rnd.random() < 0.7:
         subs.append(["s1.t", name(), "cfg"])
     for k in leafs:
-        subs.append([k, name(), "content" if k == "p" else "cfg"])
+        subs.append([k, name(), "content" if k == "p" else "orig" if k == "jn" else "cfg"])
     for k in keys:
         subs.append([k, name(), "cfg"])
-    holders = ["main"] + [k for k, _, kind in subs if kind == "cfg"]
+    holders = ["main"] + [k for k, _, kind in subs if kind == "cfg" and k != "js"]
     inline = [k for k in S_KEYS if k not in keys]
     sc = {
         "multifile": multifile, "overwrite": rnd.random() < 0.5, "subs": subs,
-        "invalid": rnd.choice(["main"] + [k for k in holders if k not in ("main", "d")] + inline) if rnd.random() < 0.25 else "none",
+        "invalid": rnd.choice(["main"] + [k for k in holders if k not in ("main", "d")] + inline + [k for k in ("jn", "js") if k in leafs]) if rnd.random() < 0.25 else "none",
         "unser": rnd.choice(holders + inline) if rnd.random() < 0.3 else "none",
         "fault": ["none", 0], "nested": nested, "wide": True,
         "pre": [[f, rnd.choices(["absent", "old", "empty", "dir"], [55, 30, 10, 5])[0]] for f in files],
@@ -489,12 +635,33 @@ def random_scenario(rnd: random.Random) -> dict:
     elif r < 0.34 and not inplace:
         sc["fault"] = ["noparent", 0]
         sc["pre"] = [[f, "absent"] for f in files]
+    # ---- round 4
+    sc["skipval"] = rnd4.random() < 0.2
+    sc["edited"] = "none"
+    if not inplace and rnd4.random() < 0.35:
+        sc["edited"] = rnd4.choice(["main"] + keys + [k for k in ("jn", "js") if k in leafs])
+    sc["scheme"] = "path"
+    r4 = rnd4.random()
+    if not inplace and r4 < 0.12:
+        sc["scheme"] = "fsspec"
+        if sc["fault"][0] == "noparent" or sc["fault"][0] == "write" or (sc["fault"][0] == "open" and sc["fault"][1] > 2):
+            sc["fault"] = ["none", 0]
+    elif not inplace and r4 < 0.16:
+        sc["scheme"] = "memory"
+        if sc["fault"][0] != "format":
+            sc["fault"] = ["none", 0]
+        sc["pre"] = [[f, "absent" if (f == "main" and c == "dir") else c] for f, c in sc["pre"]]
+    elif r4 < 0.30:
+        sc["scheme"] = "fileurl"
     return sc
 
 
 # ---------------------------------------------------------------- main
 def tlc_checked(rep, module, cfg, **kw):
+    import time
+    t0 = time.time()
     r = tlc.run(module, cfg, **kw)
+    rep.extra.setdefault("wall_s_per_step", {})[cfg + ("" if cfg not in rep.extra["wall_s_per_step"] else "#%d" % len(rep.extra["wall_s_per_step"]))] = round(time.time() - t0, 1)
     rep.add_tlc(cfg, r)
     return r
 
@@ -510,9 +677,15 @@ def main(argv):
         "a refusal (overwrite=False and an existing target), an unknown format, a missing parent directory and an OSError are legitimate reasons for save() to fail; AllOrNothing is demanded only when an invalid or unserialisable value is the ONLY possible reason",
         "OSError faults are injected by wrapping builtins.open in the harness process (n-th open for writing / n-th write); a crash of the interpreter in the middle of a write is not modelled",
         "the byte-level dump and load (PyYAML / json) are trusted: 're-parses' compares the real re-parse with the real configuration",
-        "fsspec / URL targets (_core.py:892-904) are outside the model",
+        "fsspec targets are modelled for two file systems (local://, memory://); on memory:// the order of effects cannot be observed (no builtins.open), only the states before and after; URL targets (requests) and remote file systems are outside the model",
+        "a configuration that is invalid and saved with skip_validation=True is not expected to re-parse; an unserialisable object is never placed inside a jsonnet / jsonschema value",
+        "histories: between the two calls every value of the configuration is changed, so that what the first call wrote is recognised (byte equality) as pre-existing data of the second call; save_path_content files, jsonnet sub-files and fsspec targets are not part of the history universe",
     ]
-    # ---- MC: the design-level results
+    # ---- MC: the design-level results (the history instance of round 4 runs beside it)
+    from concurrent.futures import ThreadPoolExecutor
+
+    side = ThreadPoolExecutor(max_workers=1)
+    mh_future = side.submit(tlc.run, "MC_SaveHist", f"MC_SaveHist_{tier}{SFX}", workers=min(workers, 4), heap=heap, timeout=900)
     mc = tlc_checked(rep, "MC_Save", f"MC_Save_{tier}{SFX}", workers=workers, heap=heap, timeout=1500)
     if mc.errors:
         if mc.violated:
@@ -538,30 +711,58 @@ def main(argv):
         # classes (single-file open-before-dump x pre-existing directory, plain failures)
         rare = [b for b in behaviours if b["out"] == "ok" or b["dev"] not in ("none", "single-open-before-dump")]
         single = [b for b in behaviours if b["out"] != "ok" and b["dev"] == "single-open-before-dump"]
-        plain = [b for b in behaviours if b["out"] != "ok" and b["dev"] == "none"]
-        keep = rare + rnd.sample(single, min(len(single), 8000)) + rnd.sample(plain, min(len(plain), 14000))
+        plain = [b for b in behaviours if b["out"] != "ok" and b["dev"] == "none" and not _is_round4(b["sc"])]
+        plain4 = [b for b in behaviours if b["out"] != "ok" and b["dev"] == "none" and _is_round4(b["sc"])]      # plain failures of the round-4 territory
+        keep = rare + rnd.sample(single, min(len(single), 8000)) + rnd.sample(plain, min(len(plain), 14000)) + common.rng(PID + "/plain4").sample(plain4, min(len(plain4), 6000))
         keep.sort(key=lambda b: json.dumps(b["sc"], sort_keys=True))
         replayed = keep
     else:
         replayed = behaviours
     rep.extra["replayed_model_behaviours"] = len(replayed)
+    # ---- round 4: histories (SaveHist.tla) -- save, edit, save again into the same directory
+    mh = mh_future.result()
+    side.shutdown()
+    rep.add_tlc(f"MC_SaveHist_{tier}{SFX}", mh)
+    if mh.errors or mh.rc != 0:
+        if mh.violated:
+            rep.violation("model-history:" + ",".join(mh.violated), f"TLC: {mh.violated} violated by a two-call history of the bounded model", {"tlc_errors": mh.errors, "counterexample": mh.cex[:4000]})
+        else:
+            machinery_failure(PID, "TLC failed on MC_SaveHist:\n" + mh.stdout[-3000:])
+    histories = sorted((p for p in mh.printed if isinstance(p, dict) and "hist" in p), key=lambda b: json.dumps(b["hist"], sort_keys=True))
+    if not mh.violated and not (0 < len(histories) < mh.distinct):      # distinct = root + group states + one state per history
+        machinery_failure(PID, f"MC_SaveHist emitted {len(histories)} histories (distinct={mh.distinct})")
+    rep.extra["model_histories"] = len(histories)
+    # all of them (thorough, up to a cap) or a seeded sample that prefers the histories in which a call succeeds
+    quota = {"ok->ok": 45, "raise->ok": 35, "ok->raise": 30, "raise->raise": 10} if tier == "quick" else {"ok->ok": 2500, "raise->ok": 1500, "ok->raise": 1500, "raise->raise": 700}
+    rh = common.rng(PID + "/hist")
+    hist_replayed = []
+    for cls, n in quota.items():
+        grp = [b for b in histories if f"{b['out1']}->{b['out2']}" == cls]
+        hist_replayed += grp if len(grp) <= n else rh.sample(grp, n)
+    hist_replayed.sort(key=lambda b: json.dumps(b["hist"], sort_keys=True))
+    rep.extra["replayed_model_histories"] = len(hist_replayed)
     n_random = 1500 if tier == "quick" else 12000
     base = str(common.scratch("c18"))
     tasks = [(i, b["sc"], base, seed, "replay") for i, b in enumerate(replayed)]
-    tasks += [(len(replayed) + j, random_scenario(rnd), base, seed, "random") for j in range(n_random)]
-    run_case((10**9, {"multifile": True, "overwrite": True, "subs": [["s1", "f1", "cfg"]], "invalid": "none", "unser": "none",
-                      "fault": ["none", 0], "pre": [["main", "absent"], ["f1", "absent"]]}, base, seed, "warmup"))  # imports everything before the fork
+    rnd4 = common.rng(PID + "/round4")
+    tasks += [(len(replayed) + j, random_scenario(rnd, rnd4, 0.05 if tier == "quick" else 0.25), base, seed, "random") for j in range(n_random)]
+    n_single = len(tasks)
+    tasks += [(n_single + j, {**b["hist"]["first"], "then": b["hist"]["second"]}, base, seed, "hist1") for j, b in enumerate(hist_replayed)]
+    run_case((10**9, {"multifile": True, "overwrite": True, "subs": [["jn", "f2", "orig"], ["js", "f3", "cfg"], ["s1", "f1", "cfg"]], "invalid": "none", "unser": "none",
+                      "fault": ["none", 0], "pre": [["main", "absent"], ["f1", "absent"], ["f2", "absent"], ["f3", "absent"]]}, base, seed, "warmup"))  # imports everything before the fork
+    run_case((10**9 + 1, {"multifile": False, "overwrite": True, "subs": [], "invalid": "none", "unser": "none", "scheme": "fsspec",
+                          "fault": ["none", 0], "pre": [["main", "absent"]]}, base, seed, "warmup"))               # ... fsspec's local file system included
     pool = mp.get_context("fork").Pool(NPROC)
     pending = pool.map_async(run_case, tasks, chunksize=32)
     try:
-        obs_rej = _rest(rep, tier, workers, heap, pool, pending, base)
+        obs_rej = _rest(rep, tier, workers, heap, pool, pending, base, hist_replayed, n_single)
     finally:
         pool.terminate()
         common.rm(base)
     return _classify(rep, tier, mc, behaviours, replayed, obs_rej, n_model, n_random)
 
 
-def _rest(rep, tier, workers, heap, pool, pending, base):
+def _rest(rep, tier, workers, heap, pool, pending, base, hist_replayed, n_single):
     # the known counterexamples must still be counterexamples of the model, the repairs must still repair
     cex = tlc_checked(rep, "MC_Save", "MC_Save_cex_aon" + SFX, workers=1, heap=heap, timeout=600)
     shape = _cex_shape(cex)
@@ -583,11 +784,37 @@ def _rest(rep, tier, workers, heap, pool, pending, base):
         rep.extra["tlc_coverage"] = {k: v for k, v in cov.coverage.items() if k.startswith("A_") or k == "Init"}
     rep.extra["alg_variant"] = VARIANT
 
+    import time
+    t0 = time.time()
     observations = pending.get(timeout=3000)
+    rep.extra.setdefault("wall_s_per_step", {})["waiting_for_real_code_after_model_runs"] = round(time.time() - t0, 1)
     pool.close()
     bad = [o for o in observations if "setup_error" in o]
     if bad:
         machinery_failure(PID, f"{len(bad)} scenarios could not be set up, e.g. {bad[0]['sc']}: {bad[0]['setup_error']}")
+    # ---- histories: the second call of each is an observation of its own (validated by Trace_Save like every other call);
+    # the pair is validated by Trace_SaveHist
+    pairs = []
+    for j, b in enumerate(hist_replayed):
+        o1 = observations[n_single + j]
+        if "then_skipped" in o1:
+            rep.add_drift("history not continued: the first save() changed the caller's configuration object (" + o1["then_skipped"] + ")", {"scenario": o1["sc"]})
+            continue
+        o2 = o1.pop("then")
+        o2["idx"] = len(observations)
+        observations.append(o2)
+        pairs.append({"first": o1["sc"], "second": {**o2["sc"], "pre": o2["model_pre"]}, "fs1": o1["fs"], "out1": o1["out"], "pre2": o2["pre0"],
+                      "out2": o2["out"], "fs2": o2["fs"], "refs2": o2["refs"], "reparses2": o2["reparses"]})
+    hist_rejects = {}
+    if pairs:
+        f = os.path.join(base, "hist.json")
+        with open(f, "w") as fh:
+            json.dump({"hists": pairs}, fh)
+        from concurrent.futures import ThreadPoolExecutor
+
+        side = ThreadPoolExecutor(max_workers=1)       # validated beside the single-call observations
+        th_future = side.submit(tlc.run, "Trace_SaveHist", "Trace_SaveHist" + SFX, workers=min(workers, 4), heap=heap, timeout=900, env={"TRACE_FILE": f})
+    rep.extra["histories_validated"] = len(pairs)
     # ---- TLC validates every observation
     rejects = {}
     chunk = 40000
@@ -603,6 +830,16 @@ def _rest(rep, tier, workers, heap, pool, pending, base):
             if isinstance(p, list) and len(p) == 4 and p[0] == "R":
                 rejects.setdefault(c + p[2] - 1, []).append(p[3])
         os.unlink(f)
+    if pairs:
+        th = th_future.result()
+        side.shutdown()
+        rep.add_tlc("Trace_SaveHist" + SFX, th)
+        if th.errors or th.distinct != len(pairs):
+            machinery_failure(PID, f"history validation failed (distinct={th.distinct}, expected {len(pairs)}):\n" + th.stdout[-3000:])
+        for p in th.printed:
+            if isinstance(p, list) and len(p) == 4 and p[0] == "R" and p[1] == "hist":
+                hist_rejects.setdefault(p[2] - 1, []).append(p[3])
+    rep.extra["_hist"] = (pairs, hist_rejects)
     return observations, rejects
 
 
@@ -620,17 +857,25 @@ def _classify(rep, tier, mc, behaviours, replayed, obs_rej, n_model, n_random):
     rep.extra["save_left_cwd_changed"] = sum(1 for o in observations if not o["cwd_same"])
     rep.traces = len(observations)
     rep.evaluations = len(observations)
+    r4 = {}
     for o in observations:
         sc = o["sc"]
         if sc["invalid"] != "none" or sc["unser"] != "none" or sc["fault"][0] != "none" or any(c != "absent" for _, c in sc["pre"]):
             rep.note_nontrivial(json.dumps(sc, sort_keys=True))
+        for tag, yes in (("skip_validation", sc["skipval"]), ("fsspec_target_local", sc["scheme"] == "fsspec"), ("fsspec_target_memory", sc["scheme"] == "memory"), ("file_url_target", sc["scheme"] == "fileurl"), ("edited_after_loading", sc["edited"] != "none"),
+                         ("jsonnet_orig_subfile", any(kind == "orig" for _, _, kind in sc["subs"])), ("jsonschema_subfile", any(k == "js" for k, _, _ in sc["subs"]))):
+            if yes:
+                r4[tag] = r4.get(tag, 0) + 1
+    rep.extra["round4_cases"] = r4
     rep.rule = ("cases = scenarios (flags, sub-file layout, pre-existing directory, invalid/unserialisable component, environment fault) made real and "
                 "saved once; non-trivial & distinct = distinct scenarios with at least one fault source or one pre-existing file (everything except "
                 "'valid config into an empty directory')")
-    rep.exhaustive = tier == "quick" or len(replayed) == n_model
+    rep.exhaustive = tier == "quick" or len(replayed) == n_model      # (the single-call universe; the histories are model-checked completely, replayed as a seeded sample)
     rep.explanation = (f"MC_Save enumerated its bounded scenario universe completely ({n_model} scenarios, {mc.distinct} states, every step of save() on each); "
                        f"{len(replayed)} of them were replayed on the real code ({'all' if len(replayed) == n_model else 'all successes, all multi-file / collision / in-place deviations, seeded samples of the single-file deviation and of the plain failures'}), "
                        f"plus {n_random} seeded random scenarios beyond the bounds; every observation was validated by TLC against Trace_Save. "
+                       f"Round 4: {rep.extra.get('model_histories')} two-call histories model-checked (MC_SaveHist), {rep.extra.get('replayed_model_histories')} of them replayed "
+                       f"(2 observations each, plus the pair validated by Trace_SaveHist). "
                        "Exhaustive refers to the bounded universe, not to all configurations.")
     outcomes = {}
     for o in observations:
@@ -642,6 +887,35 @@ def _classify(rep, tier, mc, behaviours, replayed, obs_rej, n_model, n_random):
         rep.sample({"scenario": o["sc"], "python": o.get("python"), "observed": {"outcome": o["out"], "exception": o["exc"], "events": [[e, f] for e, f, _ in o["events"]],
                                                                              "directory_after": o["fs"], "reparses": o["reparses"]},
                     "tlc_clauses_failed": rejects.get(o["idx"], [])})
+
+    # ---- histories: classification of Trace_SaveHist's rejections
+    pairs, hist_rejects = rep.extra.pop("_hist", ([], {}))
+    outcomes2 = {}
+    for pr in pairs:
+        outcomes2[f"{pr['out1']}->{pr['out2']}"] = outcomes2.get(f"{pr['out1']}->{pr['out2']}", 0) + 1
+    rep.extra["history_outcomes"] = outcomes2
+    for j in sorted(hist_rejects):
+        pr, clauses = pairs[j], hist_rejects[j]
+        case = {"history": "save, edit every value (new generation), drop the __path__ metas not listed in second.subs, save again into the same directory",
+                **pr, "failed_clauses": clauses}
+        if "malformed" in clauses:
+            machinery_failure(PID, f"history: the directory before the second call is not what the first call left: {case}")
+        href = [c for c in clauses if c.startswith("href-")]
+        if not href:
+            rep.add_drift("history: real save() satisfies the laws of a history but not the Alg prediction (" + ",".join(clauses) + ")", case)
+            continue
+        m1 = "multi" if pr["first"]["multifile"] else "single"
+        m2 = "multi" if pr["second"]["multifile"] else "single"
+        changed = ",".join(f"{f}:{a}->{b}" for (f, a), (_, b) in zip(pr["pre2"], pr["fs2"]) if a != b) or "nothing"
+        for c in href:
+            if c == "href-stale-as:multi-name-collision":
+                kind = "sub-main" if any(n == "main" for _, n, _ in pr["second"]["subs"]) else "sub-sub"
+                rep.violation(f"multi-name-collision:{kind}", "second save of a history succeeded but two components were written to one file name", case)
+            else:
+                rep.violation(f"history:{c[5:]}:{m1}-then-{m2}:{changed}"[:150],
+                              {"href-neverlost": "a file that existed before the first of two saves was modified although neither asked to overwrite",
+                               "href-firstkept": "the second save modified what the first save had written although overwrite=False",
+                               "href-stale": "after save, edit, save the saved path does not re-parse to the edited configuration, or a file the second configuration does not refer to was changed"}.get(c, c), case)
 
     # ---- classification of TLC's rejections
     for i in sorted(rejects):
@@ -666,6 +940,12 @@ def _classify(rep, tier, mc, behaviours, replayed, obs_rej, n_model, n_random):
             elif c == "ref-aon-other":
                 rep.violation(f"aon-other:{mode}:{sc['invalid']}/{sc['unser']}:{changed}"[:150],
                               f"save() failed because of an invalid/unserialisable value and changed the directory in a way the model does not predict: {changed}", case)
+            elif c.startswith("ref-nso-as:fsspec-no-overwrite-check:"):
+                rep.violation("fsspec-no-overwrite-check:" + c.rsplit(":", 1)[1],
+                              f"save() to an fsspec target (local://...) with overwrite=False modified an existing file: {changed}", case)
+            elif c == "ref-reparse-as:multi-orig-text-stale":
+                rep.violation("multi-orig-text-stale:jsonnet-edited", "multi-file save wrote an ActionJsonnet component that was edited after loading as the text it was loaded from; "
+                              "save() succeeded, the saved path parses to the value before the edit", case)
             elif c == "ref-reparse-as:inplace-content-emptied":
                 rep.violation("inplace-content-emptied", "multi-file save back into the directory the config was loaded from emptied the file behind a save_path_content value", case)
             elif c.startswith("ref-reparse-as:"):
@@ -684,6 +964,10 @@ def _classify(rep, tier, mc, behaviours, replayed, obs_rej, n_model, n_random):
             else:
                 rep.violation(f"unclassified:{c}", f"Trace_Save clause {c} failed", case)
     return rep.finish()
+
+
+def _is_round4(sc) -> bool:
+    return sc.get("scheme", "path") != "path" or bool(sc.get("skipval")) or sc.get("edited", "none") != "none" or any(kind == "orig" or k == "js" for k, _, kind in sc["subs"])
 
 
 def _order(pairs, like):
